@@ -5,7 +5,7 @@ HOLDMODS = lib("upipe-modules", only=["upipe_time_limit.c", "upipe_rate_limit.c"
                                         "upipe_convert_to_block.c", "upipe_genaux.c", "upipe_trickplay.c", "upipe_even.c", "upipe_audio_copy.c"])
 def _ex(n):
     return dict(name="hold", harness="harness/pipes_hold.c", repo=LIBUPIPE + HOLDMODS, engine=PIPEFIX, cflags=["-DPIPES_PROP=%d" % n], share=1.0, case_scale=0.5)
-ADD = {"C01": [_ex(1)], "C04": [_ex(4)], "C05": [_ex(5)], "C20": [_ex(20)]}
+ADD = {"C01": [_ex(1)], "C04": [_ex(4)], "C05": [_ex(5)], "C20": [_ex(20)], "C13": [_ex(13)]}
 
 _GEN = ("[hold] tape-decoded legal history (<=48 ops) over ONE holding pipe (time_limit, rate_limit, buffer, discard_blocking, burst, convert_to_block, genaux, "
         "audio_copy; trickplay and even with up to 3 input sub-pipes) whose outputs are blocking sinks of the harness ('gates': take every buffer, keep it and block "
@@ -18,6 +18,9 @@ _GEN = ("[hold] tape-decoded legal history (<=48 ops) over ONE holding pipe (tim
         "to the pipe is tracked by pointer (the uref manager's free entry is wrapped): at any moment it is exactly one of delivered / held / freed. "
         "Named exclusion flowdef-change-out-of-band (open finding): the definition of a pipe that stores it at once is not changed while the pipe holds buffers. ")
 RULE = {
+ "C13": _GEN + "oracle C13 (upipe_helper_input.h is an anchor: the blockers a pipe takes on its source pumps): a source pump is not left suspended by blockers of a pipe that holds "
+        "nothing any more (drained, flushed, output replaced) or is dead, judged when no timer is pending and the loop ran; a pump without blockers is active again; "
+        "non-trivial = a blocked source pump and a partial drain / flush / release while holding / source pump freed while blocked",
  "C01": _GEN + "oracle C01: ASan + pool poisoning second pass (depth 0 and 4), liveness model (dead exactly when the application's handle and the documented self-reference "
         "while holding are gone; super-pipe after its sub-pipes), DEAD exactly once, blockers on the source pumps that are not the sinks' must be gone once the pipe holds "
         "nothing (judged when no timer is pending and the loop ran) or is dead and the pump restarted, after the final drain every pipe is dead and every tracked uref delivered "
